@@ -422,8 +422,7 @@ let run_monitor (id : string) (case : string list) (result : string) : string =
                  | OIpDel a when del_of_held !cur states os a -> Some a | _ -> None) os));
           sels := final) hist;
       let bad = List.rev !bad in
-      let cls w = if starts_with w "selection-while-absent-" then "selection-while-absent"
-        else if starts_with w "del-of-held-address-" then "del-of-held-address" else "" in
+      let cls w = if starts_with w "selection-while-absent-" then "selection-while-absent" else "" in
       let classes = List.sort_uniq compare (List.map (fun (_, w) -> cls w) bad) in
       (if List.mem "" classes then "FAIL " else "FAIL known=" ^ String.concat "+" classes ^ " ")
       ^ String.concat " " (List.map (fun (k, w) -> Printf.sprintf "it%d:%s" k w) bad)
